@@ -8,8 +8,11 @@ transaction's uncommitted or later-committed changes."
 
 Model: Gsu/Model/Db.lean. A transaction holds a *value* (`Tran.snap`, `Tran.dif`); its reads are
 functions of these two only (`TDif.ovs`, `Overlay.lookup`, see `viewOf` in DbDrive).
+The second half (no_shared_mutation) is about the heap model Gsu/Model/Share.lean.
 -/
 import Gsu.Proofs.DbStep
+import Gsu.Proofs.Share
+import Gsu.Gen.Share
 namespace Gsu.Props.C02
 open Gsu.Db
 
@@ -44,11 +47,77 @@ theorem update_sees_own_sem (ov : Overlay) (m : Layer) (k : Key) :
 theorem lookup_is_sem (ov : Overlay) (k : Key) (v : KS) (h : ov.sem k = some v) : ov.lookup k = v :=
   lookup_of_sem ov k v h
 
+/-! ### no_shared_mutation (heap level)
+
+The functional model above cannot see Go aliasing: a snapshot's `*Meta` shares hamt nodes, Schema
+structs, `Indexes` and `FkToHere` slices with later states.  `Gsu/Model/Share.lean` models those as
+cells of an explicit heap and mirrors the in-place writes of the schema mutators.  `Frame b h h'` =
+every cell below address `b` is unchanged; with `b` the heap size when the operation starts this is
+"the operation wrote only into cells it allocated itself". `Closed b h ts` = the schema value `ts`
+of an older state lives below `b`; `obs h ts` = everything readable through it. -/
+
+open Gsu.Share in
+/-- AlterRename (with `tsNew.Indexes = slc.Clone(ts.Indexes)`) changes nothing any older state
+can observe: not of the renamed table, not of any other schema value. -/
+theorem no_shared_mutation_rename (h : Heap) (ts old : Schema) (frm to : Nat)
+    (hc : Closed h.length h old) :
+    obs (alterRename true h ts frm to).1 old = obs h old :=
+  obs_frame old (alterRename_frame h ts frm to) hc
+
+open Gsu.Share in
+/-- updateOtherFkToHere (alter drop renumbering a foreign key; getSchema's clone of `Indexes` and
+the per-entry clone of `FkToHere`) changes nothing any older state can observe. -/
+theorem no_shared_mutation_fk (h : Heap) (target old : Schema) (table : Nat) (cols fkCols : List Nat)
+    (iindex : Nat) (hc : Closed h.length h old) :
+    obs (updateOtherFkToHere true true h target table cols fkCols iindex).1 old = obs h old :=
+  obs_frame old (updateOtherFkToHere_frame h target table cols fkCols iindex) hc
+
+open Gsu.Share in
+/-- hamt pullUp (Delete of an unpersisted table) with the path-copy guard: if every node of the
+current generation was allocated after `Mutable()` (address ≥ b), every cell below `b` is unchanged
+— for every depth, every shape of the child chain — and so are the items any older root reaches. -/
+theorem no_shared_mutation_hamt (b gen fuel : Nat) (h : Heap) (a : Nat)
+    (hb : b ≤ h.length) (hg : GenFresh b gen h) :
+    Frame b h (pullUp true gen fuel h a).1 ∧
+    ∀ (f root : Nat), root < b →
+      (∀ (x : Nat) g v p, h[x]? = some (.node g v p) → x < b → ∀ c ∈ p, c < b) →
+      items f (pullUp true gen fuel h a).1 root = items f h root :=
+  ⟨(pullUp_frame fuel h a hb hg).1,
+   fun f root hr hcl => items_frame (pullUp_frame fuel h a hb hg).1 f root hcl hr⟩
+
+open Gsu.Share in
+/-- counter-witnesses: without the copies the same mutators change what an older state observes
+(the three seeded changes C02-1, C02-2, C02-3 in miniature) -/
+theorem shared_mutation_counter :
+    -- AlterRename without the clone of Indexes
+    (let h : Heap := [.fks [], .idxs [⟨[1], 0, 0, 0⟩]]
+     obs (alterRename false h ⟨1, [1], 1⟩ 1 99).1 ⟨1, [1], 1⟩ ≠ obs h ⟨1, [1], 1⟩) ∧
+    -- updateOtherFkToHere without the clone of FkToHere
+    (let h : Heap := [.fks [⟨10, [3], 2⟩], .idxs [⟨[1], 0, 0, 0⟩]]
+     obs (updateOtherFkToHere true false h ⟨1, [1, 2], 1⟩ 10 [3] [1] 1).1 ⟨1, [1, 2], 1⟩ ≠ obs h ⟨1, [1, 2], 1⟩) ∧
+    -- pullUp without the guard: the older root {100, child{200,201}} loses 201
+    (let h : Heap := [.node 1 [200, 201] [], .node 1 [100] [0]]
+     items 3 (pullUp false 2 3 h 0).1 1 ≠ items 3 h 1) := by
+  refine ⟨by decide, by decide, by decide⟩
+
+/-- (G) the code copies before it writes: metaUpdate.getSchema clones `Indexes`, AlterRename clones
+`Indexes` before its loop, updateOtherFkToHere clones `FkToHere` inside the loops before the write
+of `IIndex`, renameFkey clones `FkToHere` before its loop, and `with`/`without`/`pullUp` of
+util/hamt start with the generation guard + `dup()`. The model's mutators read these flags. -/
+theorem gen_copy_before_write :
+    Gsu.Gen.Share.getSchemaClonesIndexes = true ∧ Gsu.Gen.Share.cloneIndexesInAlterRename = true ∧
+    Gsu.Gen.Share.cloneFkToHereBeforeWrite = true ∧ Gsu.Gen.Share.renameFkeyClonesFkToHere = true ∧
+    Gsu.Gen.Share.pullUpGuard = true ∧ Gsu.Gen.Share.hamtPathCopies = true :=
+  ⟨rfl, rfl, rfl, rfl, rfl, rfl⟩
+
 /-
-no_shared_mutation (DESIGN §7 C02) — NOT PROVED here: the model is purely functional, so sharing
-of Go slices / hamt nodes between an old DbState and a new one is not expressible in it; that part
-of the property is tied only by the correspondence (every open transaction re-read after every
-step) and the direct oracles `stale-read` / `read-not-repeatable`.
+no_shared_mutation — what remains PARTIAL.  Mirrored and proved: AlterRename, metaUpdate.getSchema +
+updateOtherFkToHere, hamt pullUp.  Not mirrored (same two patterns; tied only by the generated guard
+facts above and by the correspondence suite, which re-observes every open transaction's schema
+view after every schema change): createFkeys (`slc.With` on FkToHere), dropFkeys (fresh slice),
+renameFkey, updateOtherFk, dropIndexes/createIndexes (`slices.Clip` + append), hamt `with`/`without`
+bodies, `Info.Indexes`/`Deltas`/overlay `layers` (`slc.With`/`slc.Clone`), and column slices
+(modelled as values).  Go aliasing outside these call sites is seen only by the correspondence.
 -/
 
 -- non-vacuity: a transaction open across another one's commit
